@@ -96,7 +96,9 @@ def ens_affine(I, env):
             ("bit_gap_left_to_gap_left", iff(has_bit(r, 16), ll == m2)),
             ("bit_match_to_gap_top", iff(has_bit(r, 32), mt == m3)),
             ("bit_gap_top_to_gap_top", iff(has_bit(r, 64), tt == m3)),
-            ("no_other_bits", natives.compare(I, "<", I.unC(r), 128))]
+            ("no_other_bits", natives.compare(I, "<", I.unC(r), 128)),
+            ("bits_as_sum", natives.eq(I, I.unC(r), bits_sum([(mm == m1, 1), (lm == m1, 2), (tm == m1, 4), (ml == m2, 8), (ll == m2, 16),
+                                                              (mt == m3, 32), (tt == m3, 64)])))]
 
 
 CASES = [
@@ -219,3 +221,119 @@ from pyvc.api import bounded_via_script
 bounded = bounded_via_script("C08")
 ASSUMPTIONS.append("bounded stand-in (labelled, not a proof) for the parts of align_optimal outside the contracts above (Alignment construction, "
                    "table initialisation, Python driver): all pairs of sequences of length <= 3 over {A,C,G} x matrices x penalties x modes vs brute force (bounded/C08.py)")
+
+
+# ==========================================================================
+# _fill_align_table_affine: the three tables satisfy the affine (Gotoh) recurrences
+# of the documented model: no transition between the two gap tables, free terminal
+# gaps in the last row / column, local floor per table
+
+def setup_fill_affine(code_t):
+    def setup(I):
+        n1 = sym_int(I, "len1", 0, 2 ** 30)
+        n2 = sym_int(I, "len2", 0, 2 ** 30)
+        asz = sym_int(I, "alph", 1, 2 ** 16)
+        code1 = SymArr("code1", code_t, [n1]).view(memview=True)
+        code2 = SymArr("code2", code_t, [n2]).view(memview=True)
+        matrix = SymArr("matrix", "int32", [asz, asz], readonly=True).view(memview=True)
+        trace_table = SymArr("trace_table", "uint8", [n1 + 1, n2 + 1]).view(memview=True)
+        tabs = [SymArr(nm, "int32", [n1 + 1, n2 + 1]).view(memview=True) for nm in ("m_table", "g1_table", "g2_table")]
+        go, ge = sym_c(I, "int", "gap_open"), sym_c(I, "int", "gap_ext")
+        tp = sym_c(I, "bint", "term_penalty")
+        local = sym_c(I, "bint", "local")
+        k = z3.Int("k!c")
+        I.ctx.assume(z3.ForAll([k], z3.Implies(z3.And(k >= 0, k < n1), z3.And(z3.Select(code1.arr, k) >= 0, z3.Select(code1.arr, k) < asz))))
+        I.ctx.assume(z3.ForAll([k], z3.Implies(z3.And(k >= 0, k < n2), z3.And(z3.Select(code2.arr, k) >= 0, z3.Select(code2.arr, k) < asz))))
+        g = {"T0": trace_table.arr, "M0": tabs[0].arr, "A0": tabs[1].arr, "B0": tabs[2].arr, "n1": n1, "n2": n2,
+             "c1": code1.arr, "c2": code2.arr, "M": matrix.arr, "go": go.term, "ge": ge.term, "tp0": tp.term, "loc": local.term}
+        I.ghost["afill"] = g
+        return {"args": [code1, code2, matrix, trace_table] + tabs + [go, ge, tp, local], "ghost": g}
+    return setup
+
+
+def acell_ok(g, Mt, A, B, T, r, c):
+    """recurrences of cell (r, c), 1 <= r <= n1, 1 <= c <= n2 (A: gap-left table g1, B: gap-top table g2)"""
+    tp = z3.Or(g["tp0"] != 0, g["loc"] != 0)
+    local = g["loc"] != 0
+    sim = sel2(g["M"], z3.Select(g["c1"], r - 1), z3.Select(g["c2"], c - 1))
+    mm, am, bm = sel2(Mt, r - 1, c - 1) + sim, sel2(A, r - 1, c - 1) + sim, sel2(B, r - 1, c - 1) + sim
+    free1 = z3.And(z3.Not(tp), r == g["n1"])
+    free2 = z3.And(z3.Not(tp), c == g["n2"])
+    ma, aa = sel2(Mt, r, c - 1) + z3.If(free1, 0, g["go"]), sel2(A, r, c - 1) + z3.If(free1, 0, g["ge"])
+    mb, bb = sel2(Mt, r - 1, c) + z3.If(free2, 0, g["go"]), sel2(B, r - 1, c) + z3.If(free2, 0, g["ge"])
+    m1, m2, m3 = zmax(mm, am, bm), zmax(ma, aa), zmax(mb, bb)
+    k1 = z3.Or(z3.Not(local), m1 > 0)
+    k2 = z3.Or(z3.Not(local), m2 > 0)
+    k3 = z3.Or(z3.Not(local), m3 > 0)
+    bits = bits_sum([(z3.And(k1, mm == m1), 1), (z3.And(k1, am == m1), 2), (z3.And(k1, bm == m1), 4),
+                     (z3.And(k2, ma == m2), 8), (z3.And(k2, aa == m2), 16),
+                     (z3.And(k3, mb == m3), 32), (z3.And(k3, bb == m3), 64)])
+    return z3.And(sel2(Mt, r, c) == z3.If(k1, m1, sel2(g["M0"], r, c)),
+                  sel2(A, r, c) == z3.If(k2, m2, sel2(g["A0"], r, c)),
+                  sel2(B, r, c) == z3.If(k3, m3, sel2(g["B0"], r, c)),
+                  sel2(T, r, c) == bits)
+
+
+def _atabs(env):
+    return [env.lookup(n).arr for n in ("m_table", "g1_table", "g2_table", "trace_table")]
+
+
+def _aframe(g, Mt, A, B, T, r, c):
+    return z3.And(sel2(Mt, r, c) == sel2(g["M0"], r, c), sel2(A, r, c) == sel2(g["A0"], r, c),
+                  sel2(B, r, c) == sel2(g["B0"], r, c), sel2(T, r, c) == sel2(g["T0"], r, c))
+
+
+def ainv_outer(I, env):
+    g = I.ghost["afill"]
+    Mt, A, B, T = _atabs(env)
+    i = zint(I.unC(env.lookup("i")))
+    r, c = z3.Ints("r!o c!o")
+    done = z3.ForAll([r, c], z3.Implies(z3.And(r >= 1, r < i, c >= 1, c <= g["n2"]), acell_ok(g, Mt, A, B, T, r, c)))
+    frame = z3.ForAll([r, c], z3.Implies(z3.Or(r >= i, r <= 0, c <= 0, c > g["n2"]), _aframe(g, Mt, A, B, T, r, c)))
+    return z3.And(done, frame)
+
+
+def ainv_inner(I, env):
+    g = I.ghost["afill"]
+    Mt, A, B, T = _atabs(env)
+    i = zint(I.unC(env.lookup("i")))
+    j = zint(I.unC(env.lookup("j")))
+    r, c = z3.Ints("r!i c!i")
+    done_rows = z3.ForAll([r, c], z3.Implies(z3.And(r >= 1, r < i, c >= 1, c <= g["n2"]), acell_ok(g, Mt, A, B, T, r, c)))
+    done_row = z3.ForAll([c], z3.Implies(z3.And(c >= 1, c < j), acell_ok(g, Mt, A, B, T, i, c)))
+    frame = z3.ForAll([r, c], z3.Implies(z3.Or(r > i, z3.And(r == i, c >= j), r <= 0, c <= 0, c > g["n2"]), _aframe(g, Mt, A, B, T, r, c)))
+    return z3.And(done_rows, done_row, frame, i >= 1, i <= g["n1"])
+
+
+def ens_fill_affine(I, env):
+    g = I.ghost["afill"]
+    Mt, A, B, T = (env.vars[n].arr for n in ("m_table", "g1_table", "g2_table", "trace_table"))
+    r, c = I.ctx.fresh_int("r"), I.ctx.fresh_int("c")
+    return [("recurrences_every_cell", implies(z3.And(r >= 1, r <= g["n1"], c >= 1, c <= g["n2"]), acell_ok(g, Mt, A, B, T, r, c))),
+            ("boundary_rows_untouched", implies(z3.Or(r == 0, c == 0), _aframe(g, Mt, A, B, T, r, c)))]
+
+
+def cc_get_trace_affine(I, f, args, kwargs):
+    """call-site use of get_trace_affine's contract (proved above against its body)"""
+    ins = [zint(I.unC(x)) for x in args[:7]]
+    cells = args[7:]
+    mm, lm, tm, ml, ll, mt, tt = ins
+    m1, m2, m3 = zmax(mm, lm, tm), zmax(ml, ll), zmax(mt, tt)
+    for cell, m, nm in zip(cells, (m1, m2, m3), ("max_match", "max_gap_left", "max_gap_top")):
+        v = I.ctx.fresh_cv("int32", nm)
+        I.ctx.assume(v.term == m)
+        natives.setitem(I, cell, 0, v, None)
+    conds = [(mm == m1, 1), (lm == m1, 2), (tm == m1, 4), (ml == m2, 8), (ll == m2, 16), (mt == m3, 32), (tt == m3, 64)]
+    # the returned flag byte as a bit-vector whose bits are the kernel's (proved) bit_* postconditions;
+    # bit 7 is clear (no_other_bits)
+    bv = z3.BitVec(I.ctx.fresh_name("trace_bits"), 8)
+    for b, (cnd, v) in enumerate(conds):
+        I.ctx.assume((z3.Extract(b, b, bv) == 1) == cnd)
+    I.ctx.assume(z3.Extract(7, 7, bv) == 0)
+    return CV("uint8", z3.BV2Int(bv, is_signed=False))
+
+
+CASES.append(Case(PW + "::_fill_align_table_affine", "CodeType=uint8", setup=setup_fill_affine("uint8"), overflow=False,
+                  call_contracts={TT + "::get_trace_affine": cc_get_trace_affine},
+                  loops={0: {"invariant": [ainv_outer]}, 1: {"invariant": [ainv_inner]}},
+                  ensures=[("recurrence", ens_fill_affine)], timeout=30))
